@@ -10,6 +10,8 @@ from fractions import Fraction as F
 from . import common as C
 from . import simrun as R
 
+CLAIM_MORE = "ALSO PROVED (coq/Props/C14x.v 46 + C14xg.v 3): node-level right-hand sides, initial vectors, every explicit Runge-Kutta solution and the aggregated outputs commute with relabelling, adjacency order and nodelist order (also over the definitions regenerated from analytic.py); all 17 modelled wrappers and every graph quantity they read are invariant under graph isomorphism with any insertion order; discrete_SIR, fast_nonMarkov_SIR and (distinct times) fast_nonMarkov_SIS outputs are mapped through the relabelling as corollaries of C12 / C11 / C13. Cited: the lift from vector fields to the exact flow and to scipy's adaptive odeint."
+
 CLAIM = dict(
     text="Machine-checked theorems (coq/Props/C14.v, closed under the global context): the initial-condition builders shared by the *_from_graph ODE wrappers "
          "(_get_Nk_and_IC_as_arrays_ on explicit sets and on rho, the per-degree-class counts, N) are invariant under any relabelling of the nodes combined with any re-ordering "
